@@ -172,7 +172,7 @@ type Env struct {
 	Files   *protoregistry.Files // for the local service
 }
 
-var svcOf = map[string]string{"b1": "A", "b2": "A", "b4": "A", "b3": "B", "b3x": "B", "bc": "C", "local": "A", "bd": "D", "bd2": "D", "bt": "T"}
+var svcOf = map[string]string{"b1": "A", "b2": "A", "b4": "A", "b3": "B", "b3x": "B", "bc": "C", "local": "A", "bd": "D", "bd2": "D", "bt": "T", "bh": "D1only"}
 
 // tagOf is the tag the provider's replies carry: b3x is another connection
 // to the server behind b3.
@@ -215,6 +215,22 @@ func NewEnv() (*Env, error) {
 			return nil, err
 		}
 		e.Back[b] = bk
+	}
+	// bh implements D1 only, although the proto file it was built from (and
+	// that its reflection hands out) also declares D2: it advertises D1
+	{
+		fdD, err := filesD(1).Build()
+		if err != nil {
+			e.Close()
+			return nil, err
+		}
+		bh, err := be.Start("bh", true, be.Svc{SD: fdD.Services().Get(0), Impl: tagged{"bh"}})
+		if err != nil {
+			e.Close()
+			return nil, err
+		}
+		bh.SetFiles(fdD)
+		e.Back["bh"] = bh
 	}
 	if e.Unknown, err = e.Back["b3"].NewConn(); err != nil {
 		e.Close()
